@@ -3,8 +3,8 @@
     lemma proved elsewhere, with [Print Assumptions] beneath.  bin/pqv
     re-checks every statement with [Check (name : forall ..., statement)] and
     every [Print Assumptions] on each run. *)
-From PQV Require Import AbsPQProofs AbsCostProofs ListProofs IterProofs UnwindProofs HashIndep GhostIndep Final EqRel ClearDrop.
-From PQV Require Export PropSpec.
+From PQV Require Import AbsPQProofs AbsCostProofs ListProofs IterProofs UnwindProofs HashIndep GhostIndep Final EqRel ClearDrop Refine.
+From PQV Require Export PropSpec RefineSpec.
 
 (* C01 *)
 Theorem C01_invariant : forall (I P : Type) (keq : I -> I -> bool) (hash : I -> N) (ple : P -> P -> bool) (peq : P -> P -> bool) (alloc_limit : N), run_good_stmt keq hash ple peq alloc_limit.
@@ -355,3 +355,33 @@ Print Assumptions C15_roundtrip_rel.
 Theorem C16_clear_any_drop : forall (I P : Type) (keq : I -> I -> bool) (hash : I -> N) (ple : P -> P -> bool) (peq : P -> P -> bool) (alloc_limit : N), C16_clear_any_drop_stmt keq hash ple peq alloc_limit.
 Proof. intros; apply @ClearDrop.C16_clear_any_drop. Qed.
 Print Assumptions C16_clear_any_drop.
+
+(* C03 *)
+Theorem C03_refines_map_step : forall (I P : Type) (keq : I -> I -> bool) (hash : I -> N) (ple : P -> P -> bool), refine_step_stmt keq hash ple.
+Proof. intros; apply @Refine.refine_step_closed. Qed.
+Print Assumptions C03_refines_map_step.
+
+(* C03 *)
+Theorem C03_refines_map_run : forall (I P : Type) (keq : I -> I -> bool) (hash : I -> N) (ple : P -> P -> bool), refine_run_stmt keq hash ple.
+Proof. intros; apply @Refine.refine_run_closed. Qed.
+Print Assumptions C03_refines_map_run.
+
+(* C01 *)
+Theorem C01_history_refines_max_spec : forall (I P : Type) (keq : I -> I -> bool) (hash : I -> N) (ple : P -> P -> bool), refine_run_stmt keq hash ple.
+Proof. intros; apply @Refine.refine_run_closed. Qed.
+Print Assumptions C01_history_refines_max_spec.
+
+(* C01 *)
+Theorem C01_spec_pop_meaning : forall (I P : Type) (keq : I -> I -> bool) (hash : I -> N) (ple : P -> P -> bool), spec_pop_meaning_stmt keq hash ple.
+Proof. intros; apply @Refine.spec_pop_meaning_closed. Qed.
+Print Assumptions C01_spec_pop_meaning.
+
+(* C02 *)
+Theorem C02_history_refines_minmax_spec : forall (I P : Type) (keq : I -> I -> bool) (hash : I -> N) (ple : P -> P -> bool), refine_run_stmt keq hash ple.
+Proof. intros; apply @Refine.refine_run_closed. Qed.
+Print Assumptions C02_history_refines_minmax_spec.
+
+(* C11 *)
+Theorem C11_history_refines_spec : forall (I P : Type) (keq : I -> I -> bool) (hash : I -> N) (ple : P -> P -> bool), refine_run_stmt keq hash ple.
+Proof. intros; apply @Refine.refine_run_closed. Qed.
+Print Assumptions C11_history_refines_spec.
